@@ -90,7 +90,7 @@ def harness(eng, fam, P):
             ('BF', t2, {'mode': 'raise_after', 'catch': True, 'name': 'bf2'}, []),
             ('Q', 'is_file', t1)]
     prog = Program(eng, body)
-    w = World(eng, ['o', 'o/d'], sandbox=getattr(eng, 'sandbox', None))
+    w = World(eng, ['c', 'o', 'o/d'], cache_rel='c/cache', sandbox=getattr(eng, 'sandbox', None))
     eng.path_info.update({'value': repr(val)[:200], 'names': [n1, n2], 'who': who})
     beh = {}
     for sid, kind, x in prog.functions:
